@@ -19,7 +19,9 @@ from . import c07, c19
 
 def restored_set(prog: Program, rep: Report) -> None:
     rule = "R08.1"
-    fi = prog.func("warm_start.warm_start")
+    from ..program import inline_helpers
+
+    fi = inline_helpers(prog, prog.func("warm_start.warm_start"))
     wv = [n for n in walk_no_nested(fi.node) if isinstance(n, (ast.Assign, ast.AnnAssign)) and unparse(n.targets[0] if isinstance(n, ast.Assign) else n.target) == "wvars"]
     ok = False
     mand = {"pid", "X", "Y", "Z", "alive", "active"}
@@ -43,25 +45,50 @@ def restored_set(prog: Program, rep: Report) -> None:
         n_store += 1
         rep.check(rule, fi.qual, f"path {p.describe()}: the variable is stored", len(stores) == 1 and p.steps[-1][1] is stores[0], what_bad="a variable is skipped silently", what_ok="state.variables[var] = values", loc=fi.loc(loop))
     rep.check(rule, fi.qual, "a variable without file value and without default stops the run", n_raise >= 1, what_bad="missing variables are ignored", what_ok="error + raise", loc=fi.loc(loop))
-    # slices
-    src = {unparse(n.targets[0]): unparse(n.value) for n in ast.walk(loop) if isinstance(n, ast.Assign) and isinstance(n.targets[0], ast.Name)}
-    KEEP = {"ncvar", "reftime", "values", "pcount", "pid_max", "pstart", "pend", "f", "state", "wvars", var}
-    fdefs = {k: v for k, v in single_defs(fi.node).items() if k not in KEEP}
-    inst = [n for n in ast.walk(loop) if isinstance(n, ast.If) and xunparse(n.test, fi.node, fdefs) == f"{var} in state.instance_variables"]
-    ok = False
-    for g in inst:
-        b = [unparse(x) for x in g.body]
-        e = [unparse(x) for x in g.orelse]
-        if "values = ncvar[pstart:pend]" in b and "values = ncvar[:pid_max]" in e:
-            ok = True
-    rep.check(rule, fi.qual, "instance variables read [pstart:pend] (last record), particle variables [:npid]", ok, what_bad="slices do not match the writer (instance data of the last record; particle data indexed by pid)", what_ok="last record / first npid entries", loc=fi.loc(loop))
-    shp = [n for n in ast.walk(loop) if isinstance(n, ast.Assign) and unparse(n.targets[0]) == "shape"]
-    ok = bool(shp) and xunparse(shp[0].value, fi.node, fdefs) == f"(pcount,) if {var} in state.instance_variables else (pid_max,)"
-    rep.check(rule, fi.qual, "defaults are filled with the matching length", ok, what_bad=f"shape = {unparse(shp[0].value) if shp else None}", what_ok="(pcount,) / (npid,)", loc=fi.loc(loop))
-    # time-typed variables: inverse of the writer's conversion
-    tt = [n for n in ast.walk(loop) if isinstance(n, ast.Assign) and unparse(n.targets[0]) == "values" and "np.timedelta64" in xunparse(n.value, fi.node, fdefs)]
-    ok = bool(tt) and xunparse(tt[0].value, fi.node, fdefs) in ("reftime + values * np.timedelta64(1, ncvar.units[0])", "values * np.timedelta64(1, ncvar.units[0]) + reftime")
-    rep.check("R08.7", fi.qual, "time-typed variables: reference + value * unit (inverse of the writer)", ok, what_bad=f"got {xunparse(tt[0].value, fi.node, fdefs) if tt else None}", what_ok="reftime + values*timedelta64(1, units[0])", loc=fi.loc(loop))
+    # slices: what each path of the loop body stores, with every temporary expanded
+    from ..program import path_records, single_defs as _sd
+
+    facts = warm_start_facts(prog)
+    DS = "DS"
+    PSTART, PCOUNT, PEND, PIDMAX = facts["pstart"], facts["pcount"], facts["pend"], facts["pid_max"]
+    recs = path_records(loop.body, init_env=facts["env"], rename=facts["rename"])
+    seen = {"inst": 0, "part": 0, "dflt_inst": 0, "dflt_part": 0, "time": 0}
+    bad_slices, bad_shapes, bad_time = [], [], []
+    for p, conds, stores in recs:
+        if p.exit == "raise":
+            continue
+        truth = {}
+        for text, taken in conds:
+            truth[text] = taken
+        infile = truth.get(f"{var} in {DS}.variables")
+        is_inst = truth.get(f"{var} in state.instance_variables")
+        timed = any(("since" in t and "units" in t) and k for t, k in conds)
+        st_ = [(t, v) for t, v, _ in stores if t in (f"state.variables[{var}]", f"state[{var}]")]
+        if len(st_) != 1 or infile is None or is_inst is None:
+            bad_slices.append(f"path {p.describe()}: stores {st_}, file membership {infile}, instance test {is_inst}")
+            continue
+        val = st_[0][1]
+        base = f"{DS}.variables[{var}][{PSTART}:{PEND}]" if is_inst else f"{DS}.variables[{var}][:{PIDMAX}]"
+        if infile and not timed:
+            seen["inst" if is_inst else "part"] += 1
+            if val != base:
+                bad_slices.append(f"{'instance' if is_inst else 'particle'} variable read as `{val}`")
+        elif infile and timed:
+            seen["time"] += 1
+            ref = f"np.datetime64({DS}.variables[{var}].units.split('since')[1])"
+            unit = f"np.timedelta64(1, {DS}.variables[{var}].units[0])"
+            if val not in (f"{ref} + {base} * {unit}", f"{base} * {unit} + {ref}"):
+                bad_time.append(val)
+        else:
+            seen["dflt_inst" if is_inst else "dflt_part"] += 1
+            n_ = PCOUNT if is_inst else PIDMAX
+            if val not in (f"np.full(({n_},), state.default_values[{var}])", f"np.full({n_}, state.default_values[{var}])", f"np.full(shape=({n_},), fill_value=state.default_values[{var}])"):
+                bad_shapes.append(f"default for {'an instance' if is_inst else 'a particle'} variable built as `{val}`")
+    ok = not bad_slices and seen["inst"] >= 1 and seen["part"] >= 1
+    rep.check(rule, fi.qual, "instance variables read [pstart:pend] (last record), particle variables [:npid]", ok, what_bad=("; ".join(bad_slices[:2]) or f"paths seen {seen}") + ": slices do not match the writer (instance data of the last record; particle data indexed by pid)", what_ok="last record / first npid entries", loc=fi.loc(loop))
+    ok = not bad_shapes and seen["dflt_inst"] >= 1 and seen["dflt_part"] >= 1
+    rep.check(rule, fi.qual, "defaults are filled with the matching length", ok, what_bad="; ".join(bad_shapes[:2]) or f"paths seen {seen}", what_ok="(pcount,) / (npid,)", loc=fi.loc(loop))
+    rep.check("R08.7", fi.qual, "time-typed variables: reference + value * unit (inverse of the writer)", not bad_time and seen["time"] >= 1, what_bad=f"got {bad_time[:1]}", what_ok="reftime + values*timedelta64(1, units[0])", loc=fi.loc(loop))
     # unit letter = first letter of the CF unit word
     tkm = prog.module("timekeeper")
     table = {}
@@ -76,9 +103,50 @@ def restored_set(prog: Program, rep: Report) -> None:
                     table = {ast.literal_eval(k): ast.literal_eval(x) for k, x in zip(v.keys, v.values)}
     rep.check("R08.7", "timekeeper.TimeKeeper", "unit letter = first letter of the unit word (reader uses units[0])", bool(table) and all(v[0] == k for k, v in table.items()), what_bad=f"unit_table {table}: the restart decodes time-typed variables with the wrong unit", what_ok="s/m/h/d", loc="ladim/timekeeper.py")
     # last record arithmetic (shared with C06 R06.7)
-    defs = {unparse(n.targets[0]): unparse(n.value) for n in walk_no_nested(fi.node) if isinstance(n, ast.Assign) and isinstance(n.targets[0], ast.Name)}
-    ok = defs.get("pstart") in ("f.variables['particle_count'][:-1].sum()", "np.sum(f.variables['particle_count'][:-1])") and defs.get("pcount") == "f.variables['particle_count'][-1]" and defs.get("pend") in ("pstart + pcount", "pcount + pstart")
-    rep.check(rule, fi.qual, "last record = [sum(count[:-1]) : + count[-1]]", ok, what_bad=f"pstart={defs.get('pstart')} pcount={defs.get('pcount')} pend={defs.get('pend')}", what_ok="cumulative particle_count", loc=fi.loc())
+    ok = facts["last_record_ok"]
+    rep.check(rule, fi.qual, "last record = [sum(count[:-1]) : + count[-1]]", ok, what_bad=f"pstart={PSTART} pcount={PCOUNT} pend={PEND}", what_ok="cumulative particle_count", loc=fi.loc())
+
+
+def warm_start_facts(prog: Program) -> dict:
+    """Expanded definitions of the restart reader's slice bounds, with the dataset handle renamed DS."""
+    from ..program import expand_locals, single_defs as _sd
+
+    from ..program import inline_helpers
+
+    fi = inline_helpers(prog, prog.func("warm_start.warm_start"))
+    # the dataset handle: name bound to Dataset(...)
+    handle = None
+    for n in ast.walk(fi.node):
+        if isinstance(n, ast.Assign) and isinstance(n.targets[0], ast.Name) and isinstance(n.value, ast.Call) and unparse(n.value.func).split(".")[-1] == "Dataset":
+            handle = n.targets[0].id
+    if handle is None:
+        raise AnalysisError("warm_start: the name bound to Dataset(...) was not found")
+    rename = {handle: "DS"}
+    loops = [n for n in walk_no_nested(fi.node) if isinstance(n, ast.For) and unparse(n.iter) == "wvars"]
+    loop_names = {x.id for lp in loops for x in ast.walk(lp) if isinstance(x, ast.Name) and isinstance(x.ctx, ast.Store)}
+    defs = {k: v for k, v in _sd(fi.node).items() if k not in loop_names and k != handle and k not in ("state", "wvars")}
+    from ..program import _Subst
+    import copy
+
+    def full(e):
+        e2 = _Subst(dict(defs)).visit(copy.deepcopy(e))
+        e2 = _Subst({handle: ast.Name(id="DS", ctx=ast.Load())}, depth=1).visit(e2)
+        return ast.fix_missing_locations(e2)
+
+    env = {k: full(v) for k, v in defs.items()}
+    pc = "DS.variables['particle_count']"
+    # find the slice bounds actually used: names in the loop that index [a:b] and [:c]
+    texts = {k: unparse(v) for k, v in env.items()}
+    pstart = next((t for t in texts.values() if t in (f"{pc}[:-1].sum()", f"np.sum({pc}[:-1])")), None)
+    pcount = next((t for t in texts.values() if t == f"{pc}[-1]"), None)
+    pend = next((t for t in texts.values() if pstart and pcount and t in (f"{pstart} + {pcount}", f"{pcount} + {pstart}")), None)
+    pid_max = texts.get("pid_max")
+    if pid_max is None:
+        # the value assigned to state.npid
+        for n in walk_no_nested(fi.node):
+            if isinstance(n, ast.Assign) and any(unparse(t) == "state.npid" for t in n.targets):
+                pid_max = unparse(full(n.value))
+    return {"env": env, "rename": rename, "pstart": pstart, "pcount": pcount, "pend": pend, "pid_max": pid_max, "last_record_ok": bool(pstart and pcount and pend)}
 
 
 def npid_provenance(prog: Program, rep: Report) -> None:
@@ -99,7 +167,15 @@ def npid_provenance(prog: Program, rep: Report) -> None:
     txt = unparse(e)
     from_dim = "dimensions['particle']" in txt or "ncattrs" in txt or "getncattr" in txt or ".npid" in txt
     from_pid_max = ("max(" in txt) and "'pid'" in txt
-    construct = f"state.npid = {chain}"
+    # canonical construct: temporaries expanded, the dataset handle written DS (a renamed handle or an
+    # extra temporary is the same finding)
+    from ..program import _Subst
+    import copy
+
+    wf = warm_start_facts(prog)
+    canon = _Subst(dict(wf["env"])).visit(copy.deepcopy(v))
+    canon = _Subst({k: ast.Name(id=val, ctx=ast.Load()) for k, val in wf["rename"].items()}, depth=1).visit(canon)
+    construct = f"state.npid = {unparse(ast.fix_missing_locations(canon))}"
     if from_dim and not from_pid_max:
         rep.ok(rule, fi.qual, construct, "restored from a quantity the writer derives from its release counter", fi.loc(st[0]))
     elif from_pid_max:
